@@ -6,6 +6,23 @@ from ...arch.arch_info import Endianness
 from . import astnodes as ast
 
 
+def _const_div(a, b):
+    """Divide two constants: integers divide as at run time, the quotient
+    is truncated toward zero."""
+    if isinstance(a, int) and isinstance(b, int):
+        quotient = abs(a) // abs(b)
+        return quotient if (a < 0) == (b < 0) else -quotient
+    return a / b
+
+
+def _const_rem(a, b):
+    """Remainder of two constants: for integers the remainder that belongs
+    to the truncated quotient (it has the sign of the dividend)."""
+    if isinstance(a, int) and isinstance(b, int):
+        return a - b * _const_div(a, b)
+    return operator.mod(a, b)
+
+
 class Context:
     """A context is the space where all modules live in.
 
@@ -111,9 +128,9 @@ class Context:
             ops = {
                 "+": operator.add,
                 "-": operator.sub,
-                "/": operator.truediv,
+                "/": _const_div,
                 "*": operator.mul,
-                "%": operator.mod,
+                "%": _const_rem,
             }
             return ops[expr.op](a, b)
         elif isinstance(expr, ast.TypeCast):
